@@ -480,3 +480,26 @@ def register(M):
       "        if trace is not None:\n            return False  # return a falsey value on error",
       "        if trace is not None:\n            if not isinstance(value, Exception):\n                sys.stdout = self.cap_stdout\n            return False  # return a falsey value on error",
       'after SystemExit / KeyboardInterrupt the capture stream stays installed')
+
+    # ---- C09 ---------------------------------------------------------------
+    M('C09_F1', ['C09'], 'doctest_example.py',
+      "                            if 0 < tb_lineno <= len(orig_lines):", "                            if True:",
+      'reverse of fix F1 (IndexError when rendering a failure raised in a helper of an earlier, longer part)')
+    M('C09_F4', ['C09', 'C12'], 'doctest_example.py',
+      "                    self.exc_info = sys.exc_info()\n                    self.failed_tb_lineno = getattr(ex, 'lineno', None) or 1\n                    self.logged_evals[partx] = got_eval\n                    self.logged_stdout[partx] = ''\n                    if on_error == 'raise':\n                        raise\n                    break",
+      "                    raise",
+      'reverse of fix F4 (compile-only errors escape run)')
+    M('C09_F4b', ['C09'], 'doctest_example.py',
+      "if self._partfilename is not None and self._partfilename in line and ', in ' in line:", "if self._partfilename is not None and self._partfilename in line:",
+      'reverse of the second half of fix F4 (traceback rewriter trips over File lines without a function name)')
+    M('C09_F9', ['C09'], 'checker.py',
+      "                try:\n                    got_repr = repr(got_eval)\n                except Exception as ex:\n                    raise ExtractGotReprException('Error calling repr for {}. Caused by: {!r}'.format(type(got_eval), ex), ex)\n",
+      "                got_repr = repr(got_eval)\n",
+      'reverse of fix F9 (raising repr in the stdout-then-value fallback)')
+    M('C09_import_post', ['C09'], 'doctest_example.py',
+      "                        else:\n                            summary = self._post_run(verbose)\n                            return summary",
+      "                        else:\n                            return {'passed': False, 'failed': False, 'skipped': True, 'exc_info': None}",
+      'an import failure is reported as skipped')
+    M('C09_reraise', ['C09'], 'runner.py',
+      "    on_error = 'return' if n_total > 1 else 'raise'\n    on_error = 'return'\n", "    on_error = 'return' if n_total > 1 else 'raise'\n",
+      'a single selected doctest is run with on_error=raise (the native run dies on its failure)')
